@@ -1,4 +1,5 @@
 import Nstd.Xml.LemmasGen
+import Nstd.Xml.LemmasUnesc
 /-
   Property C16 — tie by translation (extension round 7).
 
@@ -12,8 +13,7 @@ import Nstd.Xml.LemmasGen
   changes, the equality below no longer checks (a broken obligation -> the check searches a failing input).
   (second leg: also the loop over one processing instruction of `parse` and the loop body of `escapeString`.)
   What stays hand-translated and tied only by the correspondence run: the rest of `parse`, `parseElement`
-  (attribute loop, content loop with rewind), `unescapeString`, the loop structure of `escapeString` behind its first
-  condition, `Element::toString`.
+  (attribute loop, content loop with rewind), `Element::toString` (third leg: `unescapeString` is translated too).
 -/
 namespace Nstd.Xml
 open CSem
@@ -179,6 +179,53 @@ theorem parsePi_is_translation (t : Bytes) (sp : Pos) : ∀ (f : Nat) (p : Pos) 
     | next l s => exact ih s.pos s.ce s.tok s.text
     | enter l s loc => rfl
     | ret s => rfl
+
+/-- `unescapeString`, ONE run of the loop body on a non-empty rest `c :: r` of the source: the translated body (plain byte copied;
+    `&` without `;` kept; `&#…;` through `scanfHashU` = '#' + the decimal reader `scanU`, and `utf8`; `&name;` by first-match
+    search in the generated `escapeStrings`, the byte from `escapeChars`; anything else keeps the `&`) yields exactly one
+    step of the model's `unescapeF` -/
+theorem unescapeString_body_is_step (f : Nat) (c : UInt8) (r : Bytes) :
+    unescapeF (f + 1) (c :: r) =
+      (Generated.unescapeString_body (c :: r)).1 ++ unescapeF f (Generated.unescapeString_body (c :: r)).2 :=
+  unescape_step f c r
+
+/-- iteration of the translated loop body of `unescapeString` (`for(…; src < srcEnd;)`) -/
+def unescRun : Nat → Bytes → Bytes
+  | 0, _ => []
+  | _ + 1, [] => []
+  | f + 1, c :: r => (Generated.unescapeString_body (c :: r)).1 ++ unescRun f (Generated.unescapeString_body (c :: r)).2
+
+/-- `unescapeString`, the loop: the model's `unescapeF` is the iteration of the TRANSLATED loop body, for every fuel and string -/
+theorem unescapeF_is_translation : ∀ (f : Nat) (s : Bytes), unescapeF f s = unescRun f s := by
+  intro f
+  induction f with
+  | zero => intro s; simp [unescapeF, unescRun]
+  | succ f ih =>
+    intro s
+    cases s with
+    | nil => simp [unescapeF, unescRun]
+    | cons c r => rw [unescape_step, ih]; simp [unescRun]
+
+/-- `unescapeString` as a whole: no `&` → the string itself (`return str`); else the bytes in front of the first `&`, then the
+    iteration of the translated loop body on the rest.  (So `escape_unescape`, `unescape_no_growth`, `unescape_numeric_ref` and the
+    round-trip theorems speak about the translation of the current C++ body.) -/
+theorem unescape_is_translation (s : Bytes) :
+    unescape s = match Generated.unescapeString_entry s with
+      | none => s
+      | some (pre, r) => pre ++ unescRun (s.length - pre.length) r := by
+  unfold Generated.unescapeString_entry unescape
+  cases hk : idxOf (· == 38) s with
+  | none =>
+    have h := unescapeF_prefix s [] 0 (idxOf_none_false _ s hk)
+    simp only [Nat.add_zero, List.append_nil] at h
+    rw [h]; simp [unescapeF]
+  | some k =>
+    simp only []
+    have hk1 := (idxOf_some hk).1
+    have hlen : (s.take k).length = k := by simp; omega
+    have h := unescapeF_prefix (s.take k) (s.drop k) (s.length - k) (idxOf_take_false _ s k hk)
+    rw [List.take_append_drop, hlen, show k + (s.length - k) = s.length by omega] at h
+    rw [h, hlen, unescapeF_is_translation]
 
 theorem escapePlain_translated (attr : Bool) (c : UInt8) :
     Generated.escapePlain attr c = ((c ≥ 64 || c < 32) && !(attr && (c == 10 || c == 13))) := by
